@@ -83,6 +83,10 @@ class Gen:
         P = self.pattern(m, n, kind)
         if nonsingular_pattern and m == n:
             P = self.ensure_structurally_nonsingular(P, n)
+        elif nonsingular_pattern and m > n:
+            # tall: full structural column rank (every column matched to a row of its own)
+            rows = list(range(m)); self.r.shuffle(rows)
+            P = P | {(rows[j], j) for j in range(n)}
         if not P:
             P = {(0, 0)}
         return {(i, j): self.value(style, cplx) for (i, j) in P}, style
